@@ -1,5 +1,924 @@
-/- C02 — property theorems only. -/
+/-
+C02 — GeoBox views agree with its pixel-to-world mapping.  Property theorems only.
+
+Everything is over exact rationals (DESIGN §3.1); `g` ranges over *all* geoboxes (any
+integer shape incl. 1×N / N×1, any affine: mirrored, non-square, rotated, sheared; any CRS
+tag incl. `0 = None`), parameters over all values.  A hypothesis is present only where the
+code itself needs it (`det ≠ 0` for the inverse, `0 < factor` for "covers", …).
+-/
 import OdcGeo.Model.C02
+import OdcGeo.Spec.PySlice
+import OdcGeo.Lemmas.Affine
+import OdcGeo.Lemmas.C02
+import Mathlib.Tactic.Linarith
+import Mathlib.Tactic.Ring
+import Mathlib.Tactic.FieldSimp
+import Mathlib.Tactic.Positivity
+import Mathlib.Tactic.LinearCombination
+import Mathlib.Algebra.Order.Field.Rat
+
 namespace OdcGeo.C02
+open OdcGeo OdcGeo.C17 OdcGeo.PySlice
+
+/-! ## 1. pixel ↔ world are mutual inverses -/
+
+/-- `wld2pix (pix2wld p) = p` for every invertible affine. -/
+theorem wld2pix_pix2wld (g : GeoBox) (h : g.A.det ≠ 0) (p : Pt) :
+    wld2pix g (pix2wld g p) = .ok p := by
+  simp [wld2pix, pix2wld, Aff.inv?, h, bind, Except.bind, pure, Except.pure,
+    Aff.inv_apply_apply g.A h]
+
+/-- `pix2wld (wld2pix w) = w` whenever `wld2pix` answers. -/
+theorem pix2wld_wld2pix (g : GeoBox) (w p : Pt) (h : wld2pix g w = .ok p) :
+    pix2wld g p = w := by
+  unfold wld2pix Aff.inv? at h
+  by_cases hd : g.A.det = 0
+  · simp [hd, bind, Except.bind] at h
+  · simp [hd, bind, Except.bind, pure, Except.pure] at h
+    rw [← h, pix2wld, Aff.apply_inv_apply g.A hd]
+
+/-- `wld2pix` raises exactly for degenerate affines. -/
+theorem wld2pix_error_iff (g : GeoBox) (w : Pt) :
+    wld2pix g w = .error .valueError ↔ g.A.det = 0 := by
+  unfold wld2pix Aff.inv?
+  by_cases hd : g.A.det = 0 <;> simp [hd, bind, Except.bind, pure, Except.pure]
+
+/-! ## 2. footprint and bounding box are images of the pixel rectangle -/
+
+/-- The footprint ring is the image of the four pixel-rectangle corners, in the order
+`(0,0), (0,ny), (nx,ny), (nx,0)`, closed. -/
+theorem extent_is_image (g : GeoBox) :
+    extent g = [pix2wld g (0, 0), pix2wld g (0, g.ny), pix2wld g (g.nx, g.ny),
+                pix2wld g (g.nx, 0), pix2wld g (0, 0)] := by
+  simp [extent, corners, pix2wld]
+
+/-- Every point of the pixel rectangle `[0,nx]×[0,ny]` (written with barycentric
+weights `u, v ∈ [0,1]`) is mapped to the corresponding convex combination of the four
+footprint vertices: the footprint polygon is exactly the image of the rectangle. -/
+theorem extent_covers_rectangle (g : GeoBox) (u v : Rat) :
+    pix2wld g (u * g.nx, v * g.ny) =
+      let P0 := pix2wld g (0, 0); let P1 := pix2wld g (0, g.ny)
+      let P2 := pix2wld g (g.nx, g.ny); let P3 := pix2wld g (g.nx, 0)
+      ((1 - u) * (1 - v) * P0.1 + (1 - u) * v * P1.1 + u * v * P2.1 + u * (1 - v) * P3.1,
+       (1 - u) * (1 - v) * P0.2 + (1 - u) * v * P1.2 + u * v * P2.2 + u * (1 - v) * P3.2) := by
+  simp only [pix2wld, Aff.apply]
+  ext <;> simp <;> ring
+
+/-- The bounding box is the coordinate-wise min / max of the four corner images. -/
+theorem bbox_is_image_hull (g : GeoBox) :
+    let P0 := pix2wld g (0, 0); let P1 := pix2wld g (0, g.ny)
+    let P2 := pix2wld g (g.nx, g.ny); let P3 := pix2wld g (g.nx, 0)
+    boundingbox g = ⟨min4 P0.1 P1.1 P2.1 P3.1, min4 P0.2 P1.2 P2.2 P3.2,
+                     max4 P0.1 P1.1 P2.1 P3.1, max4 P0.2 P1.2 P2.2 P3.2⟩ := by
+  simp [boundingbox, pix2wld]
+
+/-- … and it contains the image of every point of the pixel rectangle (any affine:
+rotated, sheared, mirrored). -/
+theorem bbox_contains_image (g : GeoBox) (x y : Rat)
+    (hx0 : 0 ≤ x) (hx1 : x ≤ g.nx) (hy0 : 0 ≤ y) (hy1 : y ≤ g.ny) :
+    (boundingbox g).left ≤ (pix2wld g (x, y)).1 ∧ (pix2wld g (x, y)).1 ≤ (boundingbox g).right ∧
+    (boundingbox g).bottom ≤ (pix2wld g (x, y)).2 ∧ (pix2wld g (x, y)).2 ≤ (boundingbox g).top := by
+  simp only [boundingbox, pix2wld, Aff.apply]
+  exact ⟨lin_ge_min4 _ _ _ _ _ x y hx0 hx1 hy0 hy1, lin_le_max4 _ _ _ _ _ x y hx0 hx1 hy0 hy1,
+         lin_ge_min4 _ _ _ _ _ x y hx0 hx1 hy0 hy1, lin_le_max4 _ _ _ _ _ x y hx0 hx1 hy0 hy1⟩
+
+/-- … and it is tight: every side passes through a footprint vertex. -/
+theorem bbox_tight (g : GeoBox) :
+    (∃ p ∈ corners g, (boundingbox g).left = (pix2wld g p).1) ∧
+    (∃ p ∈ corners g, (boundingbox g).right = (pix2wld g p).1) ∧
+    (∃ p ∈ corners g, (boundingbox g).bottom = (pix2wld g p).2) ∧
+    (∃ p ∈ corners g, (boundingbox g).top = (pix2wld g p).2) := by
+  simp only [boundingbox, pix2wld, corners]
+  refine ⟨?_, ?_, ?_, ?_⟩
+  · rcases min4_mem (g.A.apply (0, 0)).1 (g.A.apply (0, (g.ny : Rat))).1
+      (g.A.apply ((g.nx : Rat), (g.ny : Rat))).1 (g.A.apply ((g.nx : Rat), 0)).1 with h | h | h | h <;>
+      simp [h]
+  · rcases max4_mem (g.A.apply (0, 0)).1 (g.A.apply (0, (g.ny : Rat))).1
+      (g.A.apply ((g.nx : Rat), (g.ny : Rat))).1 (g.A.apply ((g.nx : Rat), 0)).1 with h | h | h | h <;>
+      simp [h]
+  · rcases min4_mem (g.A.apply (0, 0)).2 (g.A.apply (0, (g.ny : Rat))).2
+      (g.A.apply ((g.nx : Rat), (g.ny : Rat))).2 (g.A.apply ((g.nx : Rat), 0)).2 with h | h | h | h <;>
+      simp [h]
+  · rcases max4_mem (g.A.apply (0, 0)).2 (g.A.apply (0, (g.ny : Rat))).2
+      (g.A.apply ((g.nx : Rat), (g.ny : Rat))).2 (g.A.apply ((g.nx : Rat), 0)).2 with h | h | h | h <;>
+      simp [h]
+
+/-- The code before `fix: BoundingBox.from_transform …` used only the images of `(0,0)`
+and `(nx,ny)`. -/
+def boundingboxOld (g : GeoBox) : BBox :=
+  let p1 := g.A.apply (0, 0)
+  let p2 := g.A.apply ((g.nx : Rat), (g.ny : Rat))
+  ⟨min p1.1 p2.1, min p1.2 p2.2, max p1.1 p2.1, max p1.2 p2.2⟩
+
+/-- Witness that the old two-corner box does not contain the footprint of a rotated grid:
+2×2 pixels, `A = [[3,-4],[4,3]]` (a 3-4-5 rotation): corner `(0,2) ↦ (-8, 6)` lies left of
+the old box `[-2, 0] × [0, 14]`.  Replayed on the real (unfixed) code by the harness. -/
+theorem bbox_two_corners_cex :
+    let g : GeoBox := ⟨2, 2, ⟨3, -4, 0, 4, 3, 0⟩, 0⟩
+    ¬ ((boundingboxOld g).left ≤ (pix2wld g (0, 2)).1) := by
+  decide +kernel
+
+/-! ## 3. coordinate labels are pixel centres; resolution -/
+
+/-- `coordinates` answers exactly for axis-aligned grids (`|b|,|d| < 1e-10`) and then has
+one label per pixel. -/
+theorem coords_defined_iff (g : GeoBox) :
+    (∃ ys xs, coordinates g = .ok (ys, xs) ∧ ys.length = g.ny.toNat ∧ xs.length = g.nx.toNat) ↔
+      isAffineST g.A = true := by
+  unfold coordinates
+  by_cases h : isAffineST g.A = true
+  · simp [h, labels]
+  · simp [h]
+
+/-- The `i`-th x label is the x coordinate of the centre `(i+½, ·)` of pixel column `i`,
+the `j`-th y label the y coordinate of the centre of row `j` — for **every** pixel of a
+grid without rotation / shear terms. -/
+theorem coords_are_centres (g : GeoBox) (hb : g.A.b = 0) (hd : g.A.d = 0)
+    (ys xs : List Rat) (h : coordinates g = .ok (ys, xs)) :
+    (∀ i : Nat, i < g.nx.toNat → ∀ y : Rat,
+        xs[i]? = some (pix2wld g ((i : Rat) + 1 / 2, y)).1) ∧
+    (∀ j : Nat, j < g.ny.toNat → ∀ x : Rat,
+        ys[j]? = some (pix2wld g (x, (j : Rat) + 1 / 2)).2) := by
+  unfold coordinates at h
+  split at h
+  · simp only [Except.ok.injEq, Prod.mk.injEq] at h
+    obtain ⟨rfl, rfl⟩ := h
+    constructor
+    · intro i hi y
+      simp [labels, hi, pix2wld, Aff.apply, hb]; ring
+    · intro j hj x
+      simp [labels, hj, pix2wld, Aff.apply, hd]; ring
+  · simp at h
+
+/-- With a sub-tolerance shear term (accepted by `is_affine_st`) the label is still the
+centre's image up to that term: `label i = (pix2wld (i+½, y)).x − b·y`. -/
+theorem coords_centres_upto_shear (g : GeoBox) (ys xs : List Rat)
+    (h : coordinates g = .ok (ys, xs)) (i : Nat) (hi : i < g.nx.toNat) (y : Rat) :
+    xs[i]? = some ((pix2wld g ((i : Rat) + 1 / 2, y)).1 - g.A.b * y) := by
+  unfold coordinates at h
+  split at h
+  · simp only [Except.ok.injEq, Prod.mk.injEq] at h
+    obtain ⟨rfl, rfl⟩ := h
+    simp [labels, hi, pix2wld, Aff.apply]; ring
+  · simp at h
+
+/-- Axis-aligned resolution: the signed pixel sizes, i.e. one pixel step in x / y moves
+the world point by `(rx, 0)` / `(0, ry)`. -/
+theorem resolution_st (g : GeoBox) (hb : g.A.b = 0) (hd : g.A.d = 0) (n m : Rat) (p : Pt) :
+    ∃ rx ry, resolution g n m = .ok (rx, ry) ∧
+      pix2wld g (p.1 + 1, p.2) = ((pix2wld g p).1 + rx, (pix2wld g p).2) ∧
+      pix2wld g (p.1, p.2 + 1) = ((pix2wld g p).1, (pix2wld g p).2 + ry) := by
+  have hst : isAffineST g.A = true := by
+    simp [isAffineST, hb, hd, rabs, tolST]; decide +kernel
+  refine ⟨g.A.a, g.A.e, by simp [resolution, hst], ?_, ?_⟩
+  · simp [pix2wld, Aff.apply, hb, hd]; ring
+  · simp [pix2wld, Aff.apply, hb, hd]; ring
+
+/-- Rotated / sheared resolution (`decompose_rws`): with `n = √(a²+d²)` and
+`m = √(b²+e²-w²)`, `w = (ab+de)/n` supplied as witnesses, `rx = n` is the length of one
+pixel step in x, and `rx·ry = det A` is the signed area of a pixel (so `|ry|` is the
+pixel height measured perpendicular to the x step, negative for a mirrored grid). -/
+theorem resolution_rotated (g : GeoBox) (hns : isAffineST g.A = false) (hdet : g.A.det ≠ 0)
+    (n m : Rat) (hn : 0 < n) (hn2 : n * n = g.A.a * g.A.a + g.A.d * g.A.d)
+    (hm : 0 < m)
+    (hm2 : m * m = g.A.b * g.A.b + g.A.e * g.A.e
+              - ((g.A.a * g.A.b + g.A.d * g.A.e) / n) * ((g.A.a * g.A.b + g.A.d * g.A.e) / n)) :
+    ∃ rx ry, resolution g n m = .ok (rx, ry) ∧ rx = n ∧ rx * rx = g.A.a ^ 2 + g.A.d ^ 2 ∧
+      rx * ry = g.A.det := by
+  have hnm : 0 < n * m := mul_pos hn hm
+  have hn0 : n ≠ 0 := ne_of_gt hn
+  -- (n m)² = det²
+  have key : (n * m) * (n * m) = g.A.det * g.A.det := by
+    have : (n * m) * (n * m) = (n * n) * (m * m) := by ring
+    rw [this, hm2]
+    have e1 : (g.A.a * g.A.b + g.A.d * g.A.e) / n * ((g.A.a * g.A.b + g.A.d * g.A.e) / n) * (n * n)
+        = (g.A.a * g.A.b + g.A.d * g.A.e) * (g.A.a * g.A.b + g.A.d * g.A.e) := by
+      field_simp
+    have : n * n * (g.A.b * g.A.b + g.A.e * g.A.e
+        - (g.A.a * g.A.b + g.A.d * g.A.e) / n * ((g.A.a * g.A.b + g.A.d * g.A.e) / n))
+        = (n * n) * (g.A.b * g.A.b + g.A.e * g.A.e)
+          - (g.A.a * g.A.b + g.A.d * g.A.e) / n * ((g.A.a * g.A.b + g.A.d * g.A.e) / n) * (n * n) := by
+      ring
+    rw [this, e1, hn2]; simp only [Aff.det]; ring
+  by_cases hneg : g.A.det / (n * m) < 0
+  · have hd : g.A.det < 0 := by
+      by_contra hc
+      have : 0 ≤ g.A.det / (n * m) := div_nonneg (not_lt.mp hc) (le_of_lt hnm)
+      linarith
+    refine ⟨n, -m, by simp [resolution, hns, hdet, hneg], rfl, by rw [hn2]; ring, ?_⟩
+    have : (n * m + g.A.det) * (n * m - g.A.det) = 0 := by linear_combination key
+    rcases mul_eq_zero.mp this with h | h
+    · linarith
+    · exfalso; linarith
+  · have hd : 0 < g.A.det := by
+      rcases lt_trichotomy g.A.det 0 with h | h | h
+      · exact absurd (div_neg_of_neg_of_pos h hnm) hneg
+      · exact absurd h hdet
+      · exact h
+    refine ⟨n, m, by simp [resolution, hns, hdet, hneg], rfl, by rw [hn2]; ring, ?_⟩
+    have : (n * m + g.A.det) * (n * m - g.A.det) = 0 := by linear_combination key
+    rcases mul_eq_zero.mp this with h | h
+    · exfalso; linarith
+    · linarith
+
+/-- the hypotheses of `resolution_rotated` are satisfiable: the 3-4-5 rotation scaled by 2 -/
+example : ∃ rx ry, resolution ⟨5, 7, ⟨6, -8, 1, 8, 6, 2⟩, 1⟩ 10 10 = .ok (rx, ry) ∧ rx = 10 ∧
+    rx * ry = 100 := ⟨10, 10, by decide +kernel, rfl, by norm_num⟩
+
+/-! ## 4. pixel contracts of the view operations
+
+For a view `g' = op g` the contract has the form
+`pix2wld g' p = pix2wld g (T p)` for **all** (also fractional) pixel positions `p`,
+together with the shape law and `g'.crs = g.crs`. -/
+
+/-- `gbox * T` (pixel-side composition): `X_old = T · X_new`. -/
+theorem mul_pixel (g : GeoBox) (T : Aff) (p : Pt) :
+    pix2wld (mulPix g T) p = pix2wld g (T.apply p) ∧
+    (mulPix g T).ny = g.ny ∧ (mulPix g T).nx = g.nx ∧ (mulPix g T).crs = g.crs := by
+  simp [mulPix, pix2wld, Aff.apply_mul]
+
+/-- `T * gbox` (world-side composition): the footprint is transformed by `T`. -/
+theorem rmul_pixel (T : Aff) (g : GeoBox) (p : Pt) :
+    pix2wld (mulWld T g) p = T.apply (pix2wld g p) ∧
+    (mulWld T g).ny = g.ny ∧ (mulWld T g).nx = g.nx ∧ (mulWld T g).crs = g.crs := by
+  simp [mulWld, pix2wld, Aff.apply_mul]
+
+/-- Cropping / indexing with any pair of index expressions (ints, negative, open or closed
+slices): pixel `(i,j)` of the view is pixel `(i + x0, j + y0)` of the parent, where
+`x0, y0` are the normalised starts; the shape is the normalised ROI shape. -/
+theorem crop_pixel (g : GeoBox) (sy sx : PIdx) (p : Pt) :
+    pix2wld (crop g (.two sy sx)) p
+      = pix2wld g (p.1 + ((normSlice sx g.nx).start : Rat), p.2 + ((normSlice sy g.ny).start : Rat)) ∧
+    (crop g (.two sy sx)).ny = (normSlice sy g.ny).stop - (normSlice sy g.ny).start ∧
+    (crop g (.two sy sx)).nx = (normSlice sx g.nx).stop - (normSlice sx g.nx).start ∧
+    (crop g (.two sy sx)).crs = g.crs := by
+  simp [crop, pix2wld, Aff.apply_mul, Aff.apply_translation]
+
+/-- A bare index `gbox[s]` (int or slice) is `gbox[s, :]` — in particular `gbox[-1]` is the
+last row (this is what `fix: GeoBox[-1] …` repairs). -/
+theorem crop_one_eq_two (g : GeoBox) (s : PIdx) :
+    crop g (.one s) = crop g (.two s (.slc none none)) := rfl
+
+/-- Tie to numpy semantics (`Spec/PySlice`): for a slice whose normalised stop does not
+exceed the axis length, column `i` of the view exists iff numpy selects column
+`start + i` of the parent — the view has exactly the selected columns, in order. -/
+theorem crop_selects_numpy (g : GeoBox) (sy : PIdx) (a b : Option Int) (hn : 0 ≤ g.nx)
+    (hstop : (normSlice (.slc a b) g.nx).stop ≤ g.nx) (i : Int) :
+    (0 ≤ i ∧ i < (crop g (.two sy (.slc a b))).nx) ↔
+      (0 ≤ i ∧ Sel g.nx (.slc a b) ((normSlice (.slc a b) g.nx).start + i)) := by
+  revert hstop
+  cases a <;> cases b <;>
+    simp [crop, Sel, normSlice, bounds, clampBound, wrapNeg] <;> omega
+
+/-- An in-range integer index (also negative) gives a one-row view at numpy's row. -/
+theorem crop_int_index (g : GeoBox) (k : Int) (hk : -g.ny ≤ k ∧ k < g.ny) (sx : PIdx) :
+    (crop g (.two (.idx k) sx)).ny = 1 ∧
+    Sel g.ny (.idx k) (normSlice (.idx k) g.ny).start := by
+  simp [crop, normSlice, Sel]; omega
+
+/-- The code does **not** clamp positive bounds to the parent shape (numpy does):
+`gbox[5:30]` of a 10-row geobox has 25 rows.  Recorded behaviour, replayed by the harness. -/
+theorem crop_beyond_parent_not_clamped_cex :
+    (crop ⟨10, 20, Aff.id, 0⟩ (.one (.slc (some 5) (some 30)))).ny = 25 := by decide +kernel
+
+/-- The code before `fix: GeoBox[-1] …`: a bare int `k` became `slice(k, k+1)`. -/
+def cropIntOld (g : GeoBox) (k : Int) : GeoBox := crop g (.one (.slc (some k) (some (k + 1))))
+
+/-- … which for `k = -1` gives a negative number of rows (`1 - ny`). -/
+theorem crop_int_minus_one_old_cex : (cropIntOld ⟨10, 20, Aff.id, 0⟩ (-1)).ny = -9 := by
+  decide +kernel
+
+theorem pad_pixel (g : GeoBox) (padx : Int) (pady : Option Int) (p : Pt) :
+    pix2wld (pad g padx pady) p = pix2wld g (p.1 - padx, p.2 - ((pady.getD padx : Int) : Rat)) ∧
+    (pad g padx pady).ny = g.ny + 2 * pady.getD padx ∧ (pad g padx pady).nx = g.nx + 2 * padx ∧
+    (pad g padx pady).crs = g.crs := by
+  cases pady <;>
+    simp [pad, pix2wld, Aff.apply_mul, Aff.apply_translation, sub_eq_add_neg] <;> omega
+
+/-- `pad` covers the original: the parent is the view's `[pad : pad+n]` crop. -/
+theorem pad_covers (g : GeoBox) (padx pady : Int) (hx : 0 ≤ padx) (hy : 0 ≤ pady)
+    (hny : 0 ≤ g.ny) (hnx : 0 ≤ g.nx) :
+    crop (pad g padx (some pady))
+        (.two (.slc (some pady) (some (pady + g.ny))) (.slc (some padx) (some (padx + g.nx)))) = g := by
+  obtain ⟨ny, nx, A, crs⟩ := g
+  simp only at hny hnx
+  have h1 : wrapNeg (ny + pady * 2) pady = pady := by simp [wrapNeg, hy]
+  have h2 : wrapNeg (ny + pady * 2) (pady + ny) = pady + ny := by simp [wrapNeg]; omega
+  have h3 : wrapNeg (nx + padx * 2) padx = padx := by simp [wrapNeg, hx]
+  have h4 : wrapNeg (nx + padx * 2) (padx + nx) = padx + nx := by simp [wrapNeg]; omega
+  simp only [crop, pad, normSlice, h1, h2, h3, h4]
+  congr 1
+  · omega
+  · omega
+  · rw [Aff.mul_assoc']
+    have : Aff.translation (-(padx : Rat)) (-(pady : Rat)) * Aff.translation (padx : Rat) (pady : Rat) = Aff.id := by
+      simp only [Aff.mul_def, Aff.mul, Aff.translation, Aff.id]; ext <;> simp
+    rw [this, Aff.mul_id]
+
+/-- `pad_wh`: same affine and crs (so pixel `(i,j)` stays where it was), each side is the
+least multiple of the alignment that is not smaller (for positive alignments). -/
+theorem pad_wh_contract (g : GeoBox) (ax : Int) (ay : Option Int) (g' : GeoBox)
+    (h : padWh g ax ay = .ok g') :
+    g'.A = g.A ∧ g'.crs = g.crs ∧
+    (0 < ax → g.nx ≤ g'.nx ∧ g'.nx < g.nx + ax ∧ g'.nx % ax = 0) ∧
+    (0 < ay.getD ax → g.ny ≤ g'.ny ∧ g'.ny < g.ny + ay.getD ax ∧ g'.ny % ay.getD ax = 0) := by
+  have key : ∀ (x a r : Int), alignUp x a = .ok r → 0 < a → x ≤ r ∧ r < x + a ∧ r % a = 0 := by
+    intro x a r hr ha
+    have ha0 : a ≠ 0 := by omega
+    simp [alignUp, pyMod, ha0, bind, Except.bind, pure, Except.pure] at hr
+    subst hr
+    have hf : Int.fmod (x + (a - 1)) a = (x + (a - 1)) % a := Int.fmod_eq_emod_of_nonneg _ (by omega)
+    rw [hf]
+    have h1 := Int.emod_nonneg (x + (a - 1)) ha0
+    have h2 := Int.emod_lt_of_pos (x + (a - 1)) ha
+    refine ⟨by omega, by omega, ?_⟩
+    have : x + (a - 1) - (x + (a - 1)) % a = a * ((x + (a - 1)) / a) := by
+      have := Int.emod_add_mul_ediv (x + (a - 1)) a; omega
+    rw [this]; simp
+  have split : ∀ (ayv : Int), (do
+        let ny ← alignUp g.ny ayv
+        let nx ← alignUp g.nx ax
+        pure (⟨ny, nx, g.A, g.crs⟩ : GeoBox)) = (Except.ok g' : Res GeoBox) →
+      ∃ ny' nx', alignUp g.ny ayv = .ok ny' ∧ alignUp g.nx ax = .ok nx' ∧ g' = ⟨ny', nx', g.A, g.crs⟩ := by
+    intro ayv hh
+    cases hy : alignUp g.ny ayv with
+    | error e => simp [hy, bind, Except.bind] at hh
+    | ok ny' =>
+      cases hx : alignUp g.nx ax with
+      | error e => simp [hy, hx, bind, Except.bind] at hh
+      | ok nx' =>
+        simp [hy, hx, bind, Except.bind, pure, Except.pure] at hh
+        exact ⟨ny', nx', rfl, rfl, hh.symm⟩
+  cases ay with
+  | none =>
+    obtain ⟨ny', nx', hy, hx, rfl⟩ := split ax (by simpa [padWh] using h)
+    exact ⟨rfl, rfl, fun hax => key _ _ _ hx hax, fun hay => key _ _ _ hy hay⟩
+  | some v =>
+    obtain ⟨ny', nx', hy, hx, rfl⟩ := split v (by simpa [padWh] using h)
+    exact ⟨rfl, rfl, fun hax => key _ _ _ hx hax, fun hay => key _ _ _ hy hay⟩
+
+/-- `pad_wh` raises `ZeroDivisionError` exactly for a zero alignment. -/
+theorem pad_wh_error_iff (g : GeoBox) (ax : Int) (ay : Option Int) :
+    padWh g ax ay = .error .zeroDiv ↔ (ax = 0 ∨ ay.getD ax = 0) := by
+  have hal : ∀ x a : Int, alignUp x a =
+      if a = 0 then .error .zeroDiv else .ok (x + (a - 1) - Int.fmod (x + (a - 1)) a) := by
+    intro x a
+    by_cases ha : a = 0 <;> simp [alignUp, pyMod, ha, bind, Except.bind, pure, Except.pure]
+  cases ay with
+  | none =>
+    by_cases hx : ax = 0 <;> simp [padWh, hal, hx, bind, Except.bind, pure, Except.pure]
+  | some v =>
+    by_cases hx : ax = 0 <;> by_cases hv : v = 0 <;>
+      simp [padWh, hal, hx, hv, bind, Except.bind, pure, Except.pure]
+
+theorem resize_contract (g : GeoBox) (ny nx : Int) (p : Pt) :
+    pix2wld (resize g ny nx) p = pix2wld g p ∧ (resize g ny nx).ny = ny ∧
+    (resize g ny nx).nx = nx ∧ (resize g ny nx).crs = g.crs := by
+  simp [resize, pix2wld]
+
+theorem translate_pixel (g : GeoBox) (tx ty : Rat) (p : Pt) :
+    pix2wld (translatePix g tx ty) p = pix2wld g (p.1 + tx, p.2 + ty) ∧
+    (translatePix g tx ty).ny = g.ny ∧ (translatePix g tx ty).nx = g.nx ∧
+    (translatePix g tx ty).crs = g.crs := by
+  simp [translatePix, mulPix, pix2wld, Aff.apply_mul, Aff.apply_translation]
+
+/-- Neighbours abut: pixel `(i,j)` of `left g` is pixel `(i - nx, j)` of `g` etc., so e.g.
+the right edge `x = nx` of `left g` is the left edge `x = 0` of `g`, same shape, same crs. -/
+theorem neighbours_abut (g : GeoBox) (p : Pt) :
+    pix2wld (left g) p = pix2wld g (p.1 - g.nx, p.2) ∧
+    pix2wld (right g) p = pix2wld g (p.1 + g.nx, p.2) ∧
+    pix2wld (top g) p = pix2wld g (p.1, p.2 - g.ny) ∧
+    pix2wld (bottom g) p = pix2wld g (p.1, p.2 + g.ny) ∧
+    (∀ y : Rat, pix2wld (left g) (g.nx, y) = pix2wld g (0, y)) ∧
+    (∀ y : Rat, pix2wld (right g) (0, y) = pix2wld g (g.nx, y)) ∧
+    (∀ x : Rat, pix2wld (top g) (x, g.ny) = pix2wld g (x, 0)) ∧
+    (∀ x : Rat, pix2wld (bottom g) (x, 0) = pix2wld g (x, g.ny)) := by
+  simp [left, right, top, bottom, translatePix, mulPix, pix2wld, Aff.apply_mul,
+    Aff.apply_translation, sub_eq_add_neg]
+
+theorem neighbours_shape_crs (g : GeoBox) :
+    ∀ h ∈ [left g, right g, top g, bottom g], h.ny = g.ny ∧ h.nx = g.nx ∧ h.crs = g.crs := by
+  simp [left, right, top, bottom, translatePix, mulPix]
+
+/-- `flipx`: pixel `(i,j)` of the view is pixel `(nx − i, j)` of the parent. -/
+theorem flipx_pixel (g : GeoBox) (p : Pt) :
+    pix2wld (flipx g) p = pix2wld g ((g.nx : Rat) - p.1, p.2) ∧
+    (flipx g).ny = g.ny ∧ (flipx g).nx = g.nx ∧ (flipx g).crs = g.crs := by
+  simp [flipx, mulPix, pix2wld, Aff.apply_mul, Aff.apply_translation, Aff.apply_scale]
+  ring_nf
+
+theorem flipy_pixel (g : GeoBox) (p : Pt) :
+    pix2wld (flipy g) p = pix2wld g (p.1, (g.ny : Rat) - p.2) ∧
+    (flipy g).ny = g.ny ∧ (flipy g).nx = g.nx ∧ (flipy g).crs = g.crs := by
+  simp [flipy, mulPix, pix2wld, Aff.apply_mul, Aff.apply_translation, Aff.apply_scale]
+  ring_nf
+
+/-- Flips keep the footprint: the corner images are the same four points (in mirrored
+order) and the bounding box is unchanged. -/
+theorem flip_same_footprint (g : GeoBox) :
+    (corners (flipx g)).map (pix2wld (flipx g)) = ((corners g).map (pix2wld g)).reverse ∧
+    boundingbox (flipx g) = boundingbox g ∧ boundingbox (flipy g) = boundingbox g := by
+  refine ⟨?_, ?_, ?_⟩
+  · simp [corners, flipx, mulPix, pix2wld, Aff.apply_mul, Aff.apply_translation, Aff.apply_scale]
+  · have e : ∀ q : Pt, (flipx g).A.apply q = g.A.apply ((g.nx : Rat) - q.1, q.2) := by
+      intro q; have := (flipx_pixel g q).1; simpa [pix2wld] using this
+    simp only [boundingbox, e, (flipx_pixel g (0, 0)).2.1, (flipx_pixel g (0, 0)).2.2.1]
+    simp only [sub_zero, sub_self]
+    rw [BBox.mk.injEq]
+    exact ⟨min4_perm_rev _ _ _ _, min4_perm_rev _ _ _ _, max4_perm_rev _ _ _ _, max4_perm_rev _ _ _ _⟩
+  · have e : ∀ q : Pt, (flipy g).A.apply q = g.A.apply (q.1, (g.ny : Rat) - q.2) := by
+      intro q; have := (flipy_pixel g q).1; simpa [pix2wld] using this
+    simp only [boundingbox, e, (flipy_pixel g (0, 0)).2.1, (flipy_pixel g (0, 0)).2.2.1]
+    simp only [sub_zero, sub_self]
+    rw [BBox.mk.injEq]
+    exact ⟨min4_perm_swap _ _ _ _, min4_perm_swap _ _ _ _, max4_perm_swap _ _ _ _, max4_perm_swap _ _ _ _⟩
+
+/-! ### rotation about the centre -/
+
+/-- `rotate`: world-side rotation matrix about `c0 = pix2wld (nx/2, ny/2)`. -/
+theorem rotate_pixel (g : GeoBox) (c s : Rat) (p : Pt) :
+    pix2wld (rotate g c s) p
+      = (rotationAbout c s (pix2wld g ((g.nx : Rat) * (1 / 2), (g.ny : Rat) * (1 / 2)))).apply (pix2wld g p) ∧
+    (rotate g c s).ny = g.ny ∧ (rotate g c s).nx = g.nx ∧ (rotate g c s).crs = g.crs := by
+  simp [rotate, mulWld, pix2wld, Aff.apply_mul]
+
+/-- The centre of the footprint stays where it is (any `c`, `s`). -/
+theorem rotate_fixes_centre (g : GeoBox) (c s : Rat) :
+    pix2wld (rotate g c s) ((g.nx : Rat) / 2, (g.ny : Rat) / 2)
+      = pix2wld g ((g.nx : Rat) / 2, (g.ny : Rat) / 2) := by
+  simp only [rotate, mulWld, pix2wld, Aff.apply_mul]
+  simp only [rotationAbout, Aff.apply]
+  refine Prod.ext ?_ ?_ <;> dsimp only <;> ring
+
+/-- With `c² + s² = 1` the view is the parent rotated counter-clockwise by the angle
+`(cos, sin) = (c, s)` about the centre: displacement vectors from the centre are rotated,
+distances to the centre and the pixel area (determinant) are preserved. -/
+theorem rotate_is_rotation (g : GeoBox) (c s : Rat) (hcs : c * c + s * s = 1) (p : Pt) :
+    let c0 := pix2wld g ((g.nx : Rat) / 2, (g.ny : Rat) / 2)
+    let w := pix2wld g p
+    let w' := pix2wld (rotate g c s) p
+    w'.1 - c0.1 = c * (w.1 - c0.1) - s * (w.2 - c0.2) ∧
+    w'.2 - c0.2 = s * (w.1 - c0.1) + c * (w.2 - c0.2) ∧
+    (w'.1 - c0.1) ^ 2 + (w'.2 - c0.2) ^ 2 = (w.1 - c0.1) ^ 2 + (w.2 - c0.2) ^ 2 ∧
+    (rotate g c s).A.det = g.A.det := by
+  have e1 : ∀ q : Pt, (pix2wld (rotate g c s) q).1 - (pix2wld g ((g.nx : Rat) / 2, (g.ny : Rat) / 2)).1
+      = c * ((pix2wld g q).1 - (pix2wld g ((g.nx : Rat) / 2, (g.ny : Rat) / 2)).1)
+        - s * ((pix2wld g q).2 - (pix2wld g ((g.nx : Rat) / 2, (g.ny : Rat) / 2)).2) := by
+    intro q
+    simp only [rotate, mulWld, pix2wld, Aff.apply_mul]
+    simp only [rotationAbout, Aff.apply]
+    ring
+  have e2 : ∀ q : Pt, (pix2wld (rotate g c s) q).2 - (pix2wld g ((g.nx : Rat) / 2, (g.ny : Rat) / 2)).2
+      = s * ((pix2wld g q).1 - (pix2wld g ((g.nx : Rat) / 2, (g.ny : Rat) / 2)).1)
+        + c * ((pix2wld g q).2 - (pix2wld g ((g.nx : Rat) / 2, (g.ny : Rat) / 2)).2) := by
+    intro q
+    simp only [rotate, mulWld, pix2wld, Aff.apply_mul]
+    simp only [rotationAbout, Aff.apply]
+    ring
+  refine ⟨e1 p, e2 p, ?_, ?_⟩
+  · show _ = _
+    rw [e1 p, e2 p]
+    linear_combination
+      (((pix2wld g p).1 - (pix2wld g ((g.nx : Rat) / 2, (g.ny : Rat) / 2)).1) ^ 2
+        + ((pix2wld g p).2 - (pix2wld g ((g.nx : Rat) / 2, (g.ny : Rat) / 2)).2) ^ 2) * hcs
+  · simp only [rotate, mulWld, Aff.det_mul]
+    simp only [rotationAbout, Aff.det]
+    linear_combination (g.A.a * g.A.e - g.A.b * g.A.d) * hcs
+/-- hypotheses satisfiable: the 3-4-5 rotation -/
+example : ((3 : Rat) / 5) * (3 / 5) + (4 / 5) * (4 / 5) = 1 := by norm_num
+
+/-! ### centre pixel -/
+
+theorem center_pixel_contract (g : GeoBox) (hny : 0 ≤ g.ny) (hnx : 0 ≤ g.nx) (p : Pt) :
+    (centerPixel g).ny = 1 ∧ (centerPixel g).nx = 1 ∧ (centerPixel g).crs = g.crs ∧
+    pix2wld (centerPixel g) p = pix2wld g (p.1 + ((g.nx / 2 : Int) : Rat), p.2 + ((g.ny / 2 : Int) : Rat)) := by
+  have h1 : ¬ g.ny / 2 < 0 := by omega
+  have h2 : ¬ g.nx / 2 < 0 := by omega
+  simp [centerPixel, crop, normSlice, h1, h2, pix2wld, Aff.apply_mul, Aff.apply_translation]
+
+/-- The centre pixel contains the centre of the footprint: the (rational) centre
+`(nx/2, ny/2)` is the point `(u, v)` of the one-pixel view with `0 ≤ u, v < 1`. -/
+theorem center_pixel_contains_centre (g : GeoBox) (hny : 0 ≤ g.ny) (hnx : 0 ≤ g.nx) :
+    ∃ u v : Rat, 0 ≤ u ∧ u < 1 ∧ 0 ≤ v ∧ v < 1 ∧
+      pix2wld (centerPixel g) (u, v) = pix2wld g ((g.nx : Rat) / 2, (g.ny : Rat) / 2) := by
+  have frac : ∀ n : Int, 0 ≤ n → 0 ≤ (n : Rat) / 2 - ((n / 2 : Int) : Rat) ∧
+      (n : Rat) / 2 - ((n / 2 : Int) : Rat) < 1 := by
+    intro n _
+    have h := Int.emod_add_mul_ediv n 2
+    have h0 := Int.emod_nonneg n (by decide : (2 : Int) ≠ 0)
+    have h1 := Int.emod_lt_of_pos n (by decide : (0 : Int) < 2)
+    have hc : (n : Rat) = ((n % 2 : Int) : Rat) + 2 * ((n / 2 : Int) : Rat) := by exact_mod_cast h.symm
+    have h0' : (0 : Rat) ≤ ((n % 2 : Int) : Rat) := by exact_mod_cast h0
+    have h1' : ((n % 2 : Int) : Rat) < 2 := by exact_mod_cast h1
+    constructor <;> linarith
+  refine ⟨(g.nx : Rat) / 2 - ((g.nx / 2 : Int) : Rat), (g.ny : Rat) / 2 - ((g.ny / 2 : Int) : Rat),
+    (frac _ hnx).1, (frac _ hnx).2, (frac _ hny).1, (frac _ hny).2, ?_⟩
+  rw [(center_pixel_contract g hny hnx _).2.2.2]
+  congr 1; ext <;> simp
+
+/-! ### zooming -/
+
+theorem zoom_out_error_iff (g : GeoBox) (f : Rat) : zoomOut g f = .error .zeroDiv ↔ f = 0 := by
+  by_cases h : f = 0 <;> simp [zoomOut, h]
+
+/-- `zoom_out(f)`: pixel `(i,j)` of the view is at pixel `(f·i, f·j)` of the parent; each
+side is `max(1, ⌈N/f⌉)`. -/
+theorem zoom_out_pixel (g g' : GeoBox) (f : Rat) (h : zoomOut g f = .ok g') (p : Pt) :
+    pix2wld g' p = pix2wld g (f * p.1, f * p.2) ∧ g'.crs = g.crs ∧
+    g'.ny = max 1 ((g.ny : Rat) / f).ceil ∧ g'.nx = max 1 ((g.nx : Rat) / f).ceil := by
+  by_cases hf : f = 0
+  · simp [zoomOut, hf] at h
+  · simp [zoomOut, hf] at h
+    subst h
+    simp [pix2wld, Aff.apply_mul, Aff.apply_scale, ceil1]
+
+/-- `zoom_out` covers the original: in parent pixels the view spans `N'·f ≥ N` on each
+axis, and it is tight (`N'·f < N + f`) unless the `max(1, ·)` floor of one pixel engaged. -/
+theorem zoom_out_covers (g g' : GeoBox) (f : Rat) (hf : 0 < f) (h : zoomOut g f = .ok g') :
+    (g.ny : Rat) ≤ (g'.ny : Rat) * f ∧ (g.nx : Rat) ≤ (g'.nx : Rat) * f ∧
+    (1 ≤ ((g.ny : Rat) / f).ceil → (g'.ny : Rat) * f < g.ny + f) ∧
+    (1 ≤ ((g.nx : Rat) / f).ceil → (g'.nx : Rat) * f < g.nx + f) := by
+  obtain ⟨-, -, hy, hx⟩ := zoom_out_pixel g g' f h (0, 0)
+  have cov : ∀ (N : Int) (N' : Int), N' = max 1 ((N : Rat) / f).ceil → (N : Rat) ≤ (N' : Rat) * f := by
+    intro N N' hN
+    have h1 := le_ceil_div_mul (N : Rat) f hf
+    have h2 : (((N : Rat) / f).ceil : Rat) ≤ (N' : Rat) := by
+      rw [hN]; exact_mod_cast le_max_right _ _
+    calc (N : Rat) ≤ (((N : Rat) / f).ceil : Rat) * f := h1
+      _ ≤ (N' : Rat) * f := mul_le_mul_of_nonneg_right h2 (le_of_lt hf)
+  have tight : ∀ (N : Int) (N' : Int), N' = max 1 ((N : Rat) / f).ceil → 1 ≤ ((N : Rat) / f).ceil →
+      (N' : Rat) * f < N + f := by
+    intro N N' hN h1
+    rw [hN, max_eq_right h1]
+    exact ceil_div_mul_lt (N : Rat) f hf
+  exact ⟨cov _ _ hy, cov _ _ hx, tight _ _ hy, tight _ _ hx⟩
+
+/-- `zoom_to(shape)`: requested shape, same crs, and the **same footprint**: the point at
+relative position `(u, v)` of the new pixel rectangle is the point at relative position
+`(u, v)` of the old one (corners: `u, v ∈ {0,1}`). -/
+theorem zoom_to_shape_same_footprint (g g' : GeoBox) (ny nx : Int)
+    (h : zoomToShape g ny nx = .ok g') (u v : Rat) :
+    g'.ny = ny ∧ g'.nx = nx ∧ g'.crs = g.crs ∧
+    pix2wld g' (u * nx, v * ny) = pix2wld g (u * g.nx, v * g.ny) := by
+  by_cases h0 : ny = 0 ∨ nx = 0
+  · simp [zoomToShape, h0] at h
+  · simp [zoomToShape, h0] at h
+    subst h
+    rw [not_or] at h0
+    have hy : (ny : Rat) ≠ 0 := by exact_mod_cast h0.1
+    have hx : (nx : Rat) ≠ 0 := by exact_mod_cast h0.2
+    refine ⟨rfl, rfl, rfl, ?_⟩
+    simp only [pix2wld, Aff.apply_mul, Aff.apply_scale]
+    congr 1; ext <;> simp <;> field_simp
+
+theorem zoom_to_shape_error_iff (g : GeoBox) (ny nx : Int) :
+    zoomToShape g ny nx = .error .zeroDiv ↔ (ny = 0 ∨ nx = 0) := by
+  by_cases h : ny = 0 ∨ nx = 0 <;> simp [zoomToShape, h]
+
+/-- `zoom_to(n)`: **the longest side is exactly `n`** (every shape with a positive longest
+side, every `n ≥ 1`), the other side is `max(1, ⌈s·n/nmax⌉)`, pixel `(i,j)` of the view is
+at `(nmax/n)·(i,j)` of the parent.  True in exact arithmetic; the pre-fix code computed
+`⌈N / (N/n)⌉` in doubles and returned `n+1` for ≈4 % of `(N, n)` (finding F13): that lives
+in IEEE rounding and is judged by the harness' float stream. -/
+theorem zoom_to_int_longest (g : GeoBox) (n : Int) (hn : 1 ≤ n) (hny : 0 ≤ g.ny) (hnx : 0 ≤ g.nx)
+    (hmax : 1 ≤ max g.ny g.nx) :
+    ∃ g', zoomToNum g n = .ok g' ∧ max g'.ny g'.nx = n ∧ g'.crs = g.crs ∧
+      ∀ p : Pt, pix2wld g' p
+        = pix2wld g (((max g.ny g.nx : Int) : Rat) / n * p.1, ((max g.ny g.nx : Int) : Rat) / n * p.2) := by
+  have hn0 : (n : Rat) ≠ 0 := by exact_mod_cast (by omega : n ≠ 0)
+  have hm0 : max g.ny g.nx ≠ 0 := by omega
+  have hmpos : (0 : Rat) < ((max g.ny g.nx : Int) : Rat) := by exact_mod_cast (by omega : 0 < max g.ny g.nx)
+  have hnpos : (0 : Rat) < (n : Rat) := by exact_mod_cast (by omega : 0 < n)
+  have hz : zoomToNum g n = .ok
+      ⟨ceil1 ((g.ny : Rat) * n / ((max g.ny g.nx : Int) : Rat)),
+       ceil1 ((g.nx : Rat) * n / ((max g.ny g.nx : Int) : Rat)),
+       g.A * Aff.scale (((max g.ny g.nx : Int) : Rat) / n) (((max g.ny g.nx : Int) : Rat) / n), g.crs⟩ := by
+    simp only [zoomToNum, hn0, hm0, ↓reduceIte]
+  refine ⟨_, hz, ?_, rfl, ?_⟩
+  · -- side law
+    have side_le : ∀ s : Int, 0 ≤ s → s ≤ max g.ny g.nx →
+        ceil1 ((s : Rat) * n / ((max g.ny g.nx : Int) : Rat)) ≤ n := by
+      intro s _ hs
+      unfold ceil1
+      apply max_le hn
+      rw [Rat.ceil_le_iff]
+      rw [div_le_iff₀ hmpos]
+      have : (s : Rat) ≤ ((max g.ny g.nx : Int) : Rat) := by exact_mod_cast hs
+      nlinarith
+    have side_eq : ceil1 (((max g.ny g.nx : Int) : Rat) * n / ((max g.ny g.nx : Int) : Rat)) = n := by
+      have e : ((max g.ny g.nx : Int) : Rat) * n / ((max g.ny g.nx : Int) : Rat) = (n : Rat) := by
+        field_simp
+      rw [e]; unfold ceil1
+      have : ((n : Rat)).ceil = n := by
+        apply le_antisymm
+        · rw [Rat.ceil_le_iff]
+        · have := @Rat.le_ceil (n : Rat); exact_mod_cast this
+      rw [this]; omega
+    show max (ceil1 _) (ceil1 _) = n
+    rcases le_total g.ny g.nx with hle | hle
+    · have hm : max g.ny g.nx = g.nx := max_eq_right hle
+      have h1 := side_le g.ny hny (by omega)
+      have h2 := side_eq
+      rw [hm] at h1 h2 ⊢
+      omega
+    · have hm : max g.ny g.nx = g.ny := max_eq_left hle
+      have h1 := side_le g.nx hnx (by omega)
+      have h2 := side_eq
+      rw [hm] at h1 h2 ⊢
+      omega
+  · intro p
+    simp only [pix2wld, Aff.apply_mul, Aff.apply_scale]
+
+/-- The repair of F13 is a pure refactoring in exact arithmetic: `s / (nmax / n)` (old) and
+`s · n / nmax` (new) are the same rational, hence the same `max(1, ⌈·⌉)`. -/
+theorem zoom_to_int_fix_is_exact_refactor (s nmax : Int) (n : Rat) (hn : n ≠ 0) (hm : nmax ≠ 0) :
+    ceil1 ((s : Rat) / ((nmax : Rat) / n)) = ceil1 ((s : Rat) * n / (nmax : Rat)) := by
+  have hm' : (nmax : Rat) ≠ 0 := by exact_mod_cast hm
+  congr 1; field_simp
+
+theorem zoom_to_num_error_iff (g : GeoBox) (n : Rat) :
+    zoomToNum g n = .error .zeroDiv ↔ (n = 0 ∨ max g.ny g.nx = 0) := by
+  by_cases h1 : n = 0 <;> by_cases h2 : max g.ny g.nx = 0 <;> simp [zoomToNum, h1, h2]
+
+/-! ### integer down-scaling -/
+
+/-- `scaled_down_geobox(g, k)`: defined exactly for `k > 1`; pixel `(i,j)` of the view is at
+`(k·i, k·j)` of the parent; every side is `⌈N/k⌉`, i.e. the view covers the parent
+(`N ≤ N'·k`) with less than one coarse pixel of padding (`N'·k < N + k`). -/
+theorem scaled_down_covers (g g' : GeoBox) (k : Int) (h : scaledDown g k = .ok g') (p : Pt) :
+    1 < k ∧ pix2wld g' p = pix2wld g ((k : Rat) * p.1, (k : Rat) * p.2) ∧ g'.crs = g.crs ∧
+    g.ny ≤ g'.ny * k ∧ g'.ny * k < g.ny + k ∧ g.nx ≤ g'.nx * k ∧ g'.nx * k < g.nx + k := by
+  by_cases hk : k > 1
+  · simp [scaledDown, hk] at h
+    subst h
+    have side : ∀ X : Int, X ≤ (X / k + if X % k = 0 then 0 else 1) * k ∧
+        (X / k + if X % k = 0 then 0 else 1) * k < X + k := by
+      intro X
+      have h1 := Int.emod_add_mul_ediv X k
+      have h2 := Int.emod_nonneg X (by omega : k ≠ 0)
+      have h3 := Int.emod_lt_of_pos X (by omega : 0 < k)
+      have h4 : X / k * k = k * (X / k) := Int.mul_comm _ _
+      by_cases h0 : X % k = 0
+      · simp only [h0, if_true, add_zero]; omega
+      · simp only [h0, if_false, Int.add_mul, Int.one_mul]; omega
+    refine ⟨by omega, ?_, rfl, (side g.ny).1, (side g.ny).2, (side g.nx).1, (side g.nx).2⟩
+    simp only [pix2wld, Aff.apply_mul, Aff.apply_scale]
+  · simp [scaledDown, hk] at h
+
+theorem scaled_down_error_iff (g : GeoBox) (k : Int) :
+    scaledDown g k = .error .assertion ↔ k ≤ 1 := by
+  by_cases hk : k > 1
+  · simp [scaledDown, hk]
+  · simp [scaledDown, hk]; omega
+
+/-! ### buffered -/
+
+/-- `_round_to_res(value, res)` is the least integer `b` with `b·|res| ≥ value − 0.1·|res|`
+(`0.1` = the double, `tenth`). -/
+theorem round_to_res_spec (value res : Rat) (b : Int) (h : roundToRes value res = .ok b) :
+    res ≠ 0 ∧ value - tenth * |res| ≤ (b : Rat) * |res| ∧ ((b : Rat) - 1) * |res| < value - tenth * |res| := by
+  unfold roundToRes at h
+  rw [rabs_eq_abs] at h
+  by_cases h0 : |res| = 0
+  · simp [h0] at h
+  · simp [h0] at h
+    have hpos : 0 < |res| := lt_of_le_of_ne (abs_nonneg _) (Ne.symm h0)
+    subst h
+    refine ⟨by intro hr; exact h0 (by simp [hr]), ?_, ?_⟩
+    · have := le_ceil_div_mul (value - tenth * |res|) |res| hpos
+      exact this
+    · have := ceil_div_mul_lt (value - tenth * |res|) |res| hpos
+      have e : ((((value - tenth * |res|) / |res|).ceil : Rat) - 1) * |res|
+          = (((value - tenth * |res|) / |res|).ceil : Rat) * |res| - |res| := by ring
+      rw [e]; linarith
+
+/-- `buffered(xbuff, ybuff)`: the view is the parent padded by `bx`, `by` whole pixels on
+every side — pixel `(i,j)` of the view is pixel `(i − bx, j − by)` of the parent, shape
+`(ny + 2by, nx + 2bx)`, same crs — and on each axis the pad is the least number of pixels
+that leaves at most 0.1 pixel of the requested buffer uncovered:
+`buffer − 0.1·|res| ≤ b·|res| < buffer + 0.9·|res|`. -/
+theorem buffered_covers (g g' : GeoBox) (n m xb : Rat) (yb : Option Rat)
+    (h : buffered g n m xb yb = .ok g') :
+    ∃ (rx ry : Rat) (bx by_ : Int), resolution g n m = .ok (rx, ry) ∧
+      g'.ny = g.ny + 2 * by_ ∧ g'.nx = g.nx + 2 * bx ∧ g'.crs = g.crs ∧
+      (∀ p : Pt, pix2wld g' p = pix2wld g (p.1 - bx, p.2 - by_)) ∧
+      xb - tenth * |rx| ≤ (bx : Rat) * |rx| ∧ ((bx : Rat) - 1) * |rx| < xb - tenth * |rx| ∧
+      yb.getD xb - tenth * |ry| ≤ (by_ : Rat) * |ry| ∧
+      ((by_ : Rat) - 1) * |ry| < yb.getD xb - tenth * |ry| := by
+  have e : ∀ o : Option Rat, (match o with | none => xb | some v => v) = o.getD xb := by
+    intro o; cases o <;> rfl
+  unfold buffered at h
+  rw [e yb] at h
+  generalize yb.getD xb = ybv at h ⊢
+  unfold bufferedCore at h
+  cases hr : resolution g n m with
+  | error e => simp [hr, bind, Except.bind] at h
+  | ok r =>
+    obtain ⟨rx, ry⟩ := r
+    cases hy : roundToRes ybv ry with
+    | error e => simp [hr, hy, bind, Except.bind] at h
+    | ok by_ =>
+      cases hx : roundToRes xb rx with
+      | error e => simp [hr, hy, hx, bind, Except.bind] at h
+      | ok bx =>
+        simp [hr, hy, hx, bind, Except.bind, pure, Except.pure] at h
+        subst h
+        have sx := round_to_res_spec _ _ _ hx
+        have sy := round_to_res_spec _ _ _ hy
+        refine ⟨rx, ry, bx, by_, rfl, rfl, rfl, rfl, ?_, sx.2.1, sx.2.2, sy.2.1, sy.2.2⟩
+        intro p
+        simp [pix2wld, Aff.apply_mul, Aff.apply_translation, sub_eq_add_neg]
+
+/-! ### zoom to a resolution -/
+
+/-- One axis of the tight grid snap: the `n ≥ 1` cells of signed size `res` starting at the
+returned offset reach from the near end of `[x0, x1]` to within `tol` cells of its far end
+(and beyond). -/
+theorem snap_grid_tight_covers (x0 x1 res tol off : Rat) (n : Int) (htol : 0 ≤ tol)
+    (h : snapGridTight x0 x1 res tol = .ok (off, n)) :
+    1 ≤ n ∧ res ≠ 0 ∧
+    (0 < res → off = x0 ∧ x1 - tol * res ≤ off + (n : Rat) * res) ∧
+    (res < 0 → off = x1 ∧ off + (n : Rat) * res ≤ x0 + tol * (-res)) := by
+  have snap_ge : ∀ q : Rat, q - tol ≤ ((snapCeil q tol : Int) : Rat) := by
+    intro q
+    unfold snapCeil
+    split
+    · linarith
+    · have : q ≤ ((q.ceil : Int) : Rat) := Rat.le_ceil
+      linarith
+  unfold snapGridTight at h
+  by_cases hp : res > 0
+  · simp [hp] at h
+    obtain ⟨rfl, rfl⟩ := h
+    refine ⟨le_max_left _ _, ne_of_gt hp, fun _ => ⟨rfl, ?_⟩, fun hneg => absurd hp (not_lt.mpr (le_of_lt hneg))⟩
+    have h1 := snap_ge ((x1 - x0) / res)
+    have h2 : (((snapCeil ((x1 - x0) / res) tol : Int)) : Rat) ≤ ((max 1 (snapCeil ((x1 - x0) / res) tol) : Int) : Rat) := by
+      exact_mod_cast le_max_right _ _
+    have h3 : ((x1 - x0) / res - tol) * res ≤ ((max 1 (snapCeil ((x1 - x0) / res) tol) : Int) : Rat) * res :=
+      mul_le_mul_of_nonneg_right (le_trans h1 h2) (le_of_lt hp)
+    have e : (x1 - x0) / res * res = x1 - x0 := by field_simp
+    have : ((x1 - x0) / res - tol) * res = x1 - x0 - tol * res := by rw [sub_mul, e]
+    linarith
+  · by_cases hz : res = 0
+    · simp [hz] at h
+    · have hneg : res < 0 := lt_of_le_of_ne (not_lt.mp hp) hz
+      simp [hp, hz] at h
+      obtain ⟨rfl, rfl⟩ := h
+      have hpos : 0 < -res := by linarith
+      refine ⟨le_max_right _ _, hz, fun h' => absurd h' hp, fun _ => ⟨rfl, ?_⟩⟩
+      have h1 := snap_ge ((x1 - x0) / (-res))
+      have h2 : (((snapCeil ((x1 - x0) / (-res)) tol : Int)) : Rat) ≤ ((max (snapCeil ((x1 - x0) / (-res)) tol) 1 : Int) : Rat) := by
+        exact_mod_cast le_max_left _ _
+      have h3 : ((x1 - x0) / (-res) - tol) * (-res) ≤ ((max (snapCeil ((x1 - x0) / (-res)) tol) 1 : Int) : Rat) * (-res) :=
+        mul_le_mul_of_nonneg_right (le_trans h1 h2) (le_of_lt hpos)
+      have e : (x1 - x0) / (-res) * (-res) = x1 - x0 := by field_simp
+      have : ((x1 - x0) / (-res) - tol) * (-res) = x1 - x0 - tol * (-res) := by rw [sub_mul, e]
+      linarith
+
+/-- `zoom_to(resolution=(rx, ry))`: an axis-aligned view with exactly that resolution and
+the parent's crs whose pixel rectangle covers the parent's bounding box up to the
+documented 1/100 pixel on the far side (stated for the x axis; y is symmetric), and
+`ZeroDivisionError` is the only failure. -/
+theorem zoom_to_res_covers (g g' : GeoBox) (rx ry : Rat) (h : zoomToRes g rx ry = .ok g') :
+    g'.crs = g.crs ∧ g'.A.a = rx ∧ g'.A.b = 0 ∧ g'.A.d = 0 ∧ g'.A.e = ry ∧ 1 ≤ g'.nx ∧ 1 ≤ g'.ny ∧
+    (0 < rx → g'.A.c = (boundingbox g).left ∧
+        (boundingbox g).right - tolSnap * rx ≤ (pix2wld g' (g'.nx, 0)).1) ∧
+    (rx < 0 → g'.A.c = (boundingbox g).right ∧
+        (pix2wld g' (g'.nx, 0)).1 ≤ (boundingbox g).left + tolSnap * (-rx)) ∧
+    (0 < ry → g'.A.f = (boundingbox g).bottom ∧
+        (boundingbox g).top - tolSnap * ry ≤ (pix2wld g' (0, g'.ny)).2) ∧
+    (ry < 0 → g'.A.f = (boundingbox g).top ∧
+        (pix2wld g' (0, g'.ny)).2 ≤ (boundingbox g).bottom + tolSnap * (-ry)) := by
+  have htol : (0 : Rat) ≤ tolSnap := by decide +kernel
+  unfold zoomToRes at h
+  cases hx : snapGridTight (boundingbox g).left (boundingbox g).right rx tolSnap with
+  | error e => simp [hx, bind, Except.bind] at h
+  | ok r1 =>
+    obtain ⟨offx, nx⟩ := r1
+    cases hy : snapGridTight (boundingbox g).bottom (boundingbox g).top ry tolSnap with
+    | error e => simp [hx, hy, bind, Except.bind] at h
+    | ok r2 =>
+      obtain ⟨offy, ny⟩ := r2
+      simp [hx, hy, bind, Except.bind, pure, Except.pure] at h
+      subst h
+      have sx := snap_grid_tight_covers _ _ _ _ _ _ htol hx
+      have sy := snap_grid_tight_covers _ _ _ _ _ _ htol hy
+      have ea : (Aff.translation offx offy * Aff.scale rx ry) = ⟨rx, 0, offx, 0, ry, offy⟩ := by
+        simp only [Aff.mul_def, Aff.mul, Aff.translation, Aff.scale]; ext <;> simp
+      refine ⟨rfl, by rw [ea], by rw [ea], by rw [ea], by rw [ea], sx.1, sy.1, ?_, ?_, ?_, ?_⟩
+      · intro hp; obtain ⟨h1, h2⟩ := sx.2.2.1 hp
+        refine ⟨by rw [ea]; exact h1, ?_⟩
+        simp only [ea, pix2wld, Aff.apply, mul_zero, add_zero]; linarith
+      · intro hp; obtain ⟨h1, h2⟩ := sx.2.2.2 hp
+        refine ⟨by rw [ea]; exact h1, ?_⟩
+        simp only [ea, pix2wld, Aff.apply, mul_zero, add_zero]; linarith
+      · intro hp; obtain ⟨h1, h2⟩ := sy.2.2.1 hp
+        refine ⟨by rw [ea]; exact h1, ?_⟩
+        simp only [ea, pix2wld, Aff.apply, mul_zero, zero_add]; linarith
+      · intro hp; obtain ⟨h1, h2⟩ := sy.2.2.2 hp
+        refine ⟨by rw [ea]; exact h1, ?_⟩
+        simp only [ea, pix2wld, Aff.apply, mul_zero, zero_add]; linarith
+
+theorem zoom_to_res_error_iff (g : GeoBox) (rx ry : Rat) :
+    (∃ e, zoomToRes g rx ry = .error e) ↔ (rx = 0 ∨ ry = 0) := by
+  have hs : ∀ x0 x1 res, (∃ e, snapGridTight x0 x1 res tolSnap = .error e) ↔ res = 0 := by
+    intro x0 x1 res
+    unfold snapGridTight
+    by_cases hp : res > 0
+    · simp [hp]; exact ne_of_gt hp
+    · by_cases hz : res = 0 <;> simp [hp, hz]
+  unfold zoomToRes
+  cases hx : snapGridTight (boundingbox g).left (boundingbox g).right rx tolSnap with
+  | error e =>
+    have := (hs _ _ _).mp ⟨e, hx⟩
+    simp [bind, Except.bind, this]
+  | ok r1 =>
+    have hrx : rx ≠ 0 := fun h0 => by
+      obtain ⟨e, he⟩ := (hs (boundingbox g).left (boundingbox g).right rx).mpr h0
+      rw [hx] at he; cases he
+    cases hy : snapGridTight (boundingbox g).bottom (boundingbox g).top ry tolSnap with
+    | error e =>
+      have := (hs _ _ _).mp ⟨e, hy⟩
+      simp [bind, Except.bind, this]
+    | ok r2 =>
+      have hry : ry ≠ 0 := fun h0 => by
+        obtain ⟨e, he⟩ := (hs (boundingbox g).bottom (boundingbox g).top ry).mpr h0
+        rw [hy] at he; cases he
+      simp [bind, Except.bind, pure, Except.pure, hrx, hry]
+
+/-! ## 5. CRS is carried by every view -/
+
+theorem crs_preserved (g : GeoBox) :
+    (∀ roi, (crop g roi).crs = g.crs) ∧
+    (∀ px py, (pad g px py).crs = g.crs) ∧
+    (∀ ny nx, (resize g ny nx).crs = g.crs) ∧
+    (∀ tx ty, (translatePix g tx ty).crs = g.crs) ∧
+    (left g).crs = g.crs ∧ (right g).crs = g.crs ∧ (top g).crs = g.crs ∧ (bottom g).crs = g.crs ∧
+    (flipx g).crs = g.crs ∧ (flipy g).crs = g.crs ∧
+    (∀ c s, (rotate g c s).crs = g.crs) ∧ (centerPixel g).crs = g.crs ∧
+    (∀ T, (mulPix g T).crs = g.crs ∧ (mulWld T g).crs = g.crs) ∧
+    (∀ ax ay g', padWh g ax ay = .ok g' → g'.crs = g.crs) ∧
+    (∀ f g', zoomOut g f = .ok g' → g'.crs = g.crs) ∧
+    (∀ ny nx g', zoomToShape g ny nx = .ok g' → g'.crs = g.crs) ∧
+    (∀ n g', zoomToNum g n = .ok g' → g'.crs = g.crs) ∧
+    (∀ rx ry g', zoomToRes g rx ry = .ok g' → g'.crs = g.crs) ∧
+    (∀ k g', scaledDown g k = .ok g' → g'.crs = g.crs) ∧
+    (∀ n m xb yb g', buffered g n m xb yb = .ok g' → g'.crs = g.crs) := by
+  refine ⟨fun roi => by cases roi <;> rfl, fun _ _ => rfl, fun _ _ => rfl, fun _ _ => rfl,
+    rfl, rfl, rfl, rfl, rfl, rfl, fun _ _ => rfl, rfl, fun _ => ⟨rfl, rfl⟩,
+    fun ax ay g' h => (pad_wh_contract g ax ay g' h).2.1,
+    fun f g' h => (zoom_out_pixel g g' f h (0, 0)).2.1,
+    fun ny nx g' h => (zoom_to_shape_same_footprint g g' ny nx h 0 0).2.2.1,
+    ?_, fun rx ry g' h => (zoom_to_res_covers g g' rx ry h).1,
+    fun k g' h => (scaled_down_covers g g' k h (0, 0)).2.2.1,
+    fun n m xb yb g' h => by obtain ⟨_, _, _, _, _, _, _, hc, _⟩ := buffered_covers g g' n m xb yb h; exact hc⟩
+  intro n g' h
+  unfold zoomToNum at h
+  by_cases h1 : n = 0
+  · simp [h1] at h
+  · by_cases h2 : max g.ny g.nx = 0
+    · simp [h1, h2] at h
+    · simp [h1, h2] at h; subst h; rfl
+
+/-! ## 6. GCP geoboxes: views compose with an arbitrary pixel→world function -/
+
+/-- Every pixel contract above lifts through the GCP mapping `P` (any function): if a view
+operation relates the affine triples by `pix2wld g' p = pix2wld g (T p)`, the GCP geoboxes
+built on the same mapping satisfy the same relation.  (`GCPGeoBox.__getitem__/pad/pad_wh/
+zoom_out/zoom_to/center_pixel` act on the triple only.) -/
+theorem gcp_views_compose (P : Pt → Pt) (g g' : GeoBox) (T : Pt → Pt)
+    (h : ∀ p, pix2wld g' p = pix2wld g (T p)) (p : Pt) :
+    gcpPix2wld P g' p = gcpPix2wld P g (T p) := by
+  have := h p
+  simp only [pix2wld] at this
+  simp only [gcpPix2wld, this]
+
+/-- instance: cropping a GCP geobox -/
+theorem gcp_crop_pixel (P : Pt → Pt) (g : GeoBox) (sy sx : PIdx) (p : Pt) :
+    gcpPix2wld P (crop g (.two sy sx)) p
+      = gcpPix2wld P g (p.1 + ((normSlice sx g.nx).start : Rat), p.2 + ((normSlice sy g.ny).start : Rat)) :=
+  gcp_views_compose P g _ (fun p => (p.1 + ((normSlice sx g.nx).start : Rat), p.2 + ((normSlice sy g.ny).start : Rat)))
+    (fun q => (crop_pixel g sy sx q).1) p
+
+/-- instance: zooming a GCP geobox -/
+theorem gcp_zoom_out_pixel (P : Pt → Pt) (g g' : GeoBox) (f : Rat) (h : zoomOut g f = .ok g') (p : Pt) :
+    gcpPix2wld P g' p = gcpPix2wld P g (f * p.1, f * p.2) :=
+  gcp_views_compose P g g' (fun p => (f * p.1, f * p.2)) (fun q => (zoom_out_pixel g g' f h q).1) p
+
+/-- If world→pixel `Q` inverts pixel→world `P` (as fitted polynomials do only up to the
+fit error — here assumed exactly), the GCP geobox has mutually inverse mappings too. -/
+theorem gcp_wld2pix_pix2wld (P Q : Pt → Pt) (hQP : ∀ q, Q (P q) = q) (g : GeoBox)
+    (hd : g.A.det ≠ 0) (p : Pt) :
+    gcpWld2pix Q g (gcpPix2wld P g p) = .ok p := by
+  simp [gcpWld2pix, gcpPix2wld, Aff.inv?, hd, bind, Except.bind, pure, Except.pure, hQP,
+    Aff.inv_apply_apply g.A hd]
+
+/-- When the control points are affinely related (`P = B`), the GCP geobox *is* its linear
+approximation `GeoBox(shape, B * affine, crs)`; that the least-squares fit then returns `B`
+exactly is C20's `affine_fit_exact`, not re-proved here. -/
+theorem gcp_exact_when_affine (P : Pt → Pt) (B : Aff) (hP : ∀ q, P q = B.apply q) (g : GeoBox) (p : Pt) :
+    gcpPix2wld P g p = pix2wld (gcpApprox B g) p ∧
+    (gcpApprox B g).ny = g.ny ∧ (gcpApprox B g).nx = g.nx ∧ (gcpApprox B g).crs = g.crs := by
+  simp [gcpPix2wld, gcpApprox, mulWld, pix2wld, hP, Aff.apply_mul]
 
 end OdcGeo.C02
